@@ -21,7 +21,7 @@ if __name__ == '__main__':
     tot = {'discharged': 0, 'refuted': 0, 'undecided': 0}
     for m in mods:
         mod = importlib.import_module(m)
-        for spec in mod.SPECS:
+        for spec in (mod.build(funcs) if hasattr(mod, 'build') else mod.SPECS):
             if only and only not in spec.fid:
                 continue
             t = time.time()
